@@ -1518,8 +1518,7 @@ func genStale(r *vhlib.Rng, loadedExpired bool) *Spec {
 	s := &Spec{Kind: "stale_metrics", Hours: 24, PassOrgs: []int64{0}, Orgs: []int64{0}}
 	off := int64(600000)
 	if loadedExpired {
-		s.NoModel = true
-		off = -7200000 // which of the two selected entries the map iteration visits first decides whether this one leaves the in-memory metadata
+		off = -7200000 // before the repair the map iteration order decided whether this one left the in-memory metadata before the return
 	}
 	s.Rounds = []Round{{Rotate: true, Segs: []SegSpec{
 		{ID: 1, Kind: "met", Name: "m", Offs: []int64{off}},
